@@ -293,6 +293,36 @@ def replay(ctx, rp):
     case = rp.get("case") or {}
     print(json.dumps({k: v for k, v in case.items() if k != "start_txt"}, indent=1))
     print("recorded:", rp.get("observed"))
+    if (rp.get("sig") or {}).get("oracle") == "wisdom" and case.get("cmd"):
+        # three runs of the command line in a data directory Inovesa never used
+        import shlex, re as _re
+        wd = workdir(ctx)
+        env = dict(vp_build.xdg_env(), XDG_DATA_HOME=os.path.join(wd, "xdg"), HOME=os.path.join(wd, "home"))
+        os.makedirs(env["XDG_DATA_HOME"])
+        os.makedirs(env["HOME"])
+        outs = []
+        for i in (1, 2, 3):
+            out = os.path.join(wd, "run%d.h5" % i)
+            args = [out if x == "run.h5" else x for x in shlex.split(case["cmd"])]
+            r = subprocess.run(["timeout", "120", tg["inovesa"]] + args, env=env, capture_output=True, text=True)
+            created = _re.findall(r"Created some wisdom at (\S+)", r.stdout + r.stderr)
+            wdir = os.path.join(env["XDG_DATA_HOME"], "inovesa", "fftwisdom")
+            files = sorted(os.listdir(wdir)) if os.path.isdir(wdir) else None
+            print("run %d: rc=%d, 'Created some wisdom' lines: %s, wisdom files afterwards: %s" % (i, r.returncode, [os.path.basename(c) for c in created], files))
+            outs.append(out)
+            if i == 1 and [c for c in created if not os.path.isfile(c)]:
+                ctx.violation("impl-oracle", "the first run in a fresh data directory reports created wisdom but the file does not exist afterwards", case=case,
+                              observed=files, sig={"oracle": "wisdom", "clause": "wisdom-file-missing"})
+            if i > 1 and created:
+                ctx.violation("impl-oracle", "run %d in the same data directory plans %d FFT(s) again" % (i, len(created)), case=case,
+                              observed=[os.path.basename(c) for c in created], sig={"oracle": "wisdom", "clause": "replanned-with-stored-wisdom"})
+        d = wisdom_cases.physics_equal(tg, outs[1], outs[2])
+        print("runs 2 and 3:", "bit-identical physics datasets" if not d else d[:5])
+        if d:
+            ctx.violation("impl-oracle", "two runs with identical parameters in the same data directory differ: " + d[0], case=case, observed=d[:5],
+                          sig={"oracle": "wisdom", "clause": "repeat-differs"})
+        shutil.rmtree(wd, ignore_errors=True)
+        return
     if "reference" not in case or "variant" not in case:
         return
     wd = workdir(ctx)
